@@ -427,7 +427,7 @@ fn exec(base: Base, binds: bool, seq: &[Atk], render: bool) -> RunOutput {
             h.str(&format!("{e:?}"));
         }
     }
-    let out = RunOutput {
+    let out = RunOutput { blocked: false,
         steps: cx.w.sim.steps,
         fingerprints: std::mem::take(&mut cx.fps),
         outcome: h.0,
